@@ -246,7 +246,7 @@ pub fn run(ctx: &mut Ctx) {
     for (n, ok) in r2::selftest() {
         ctx.selftest(&n, ok);
     }
-    ctx.require(&["valid_accepted", "bitflip_r", "bitflip_s", "r=0", "s=0", "r=n", "s=n", "s=n+1", "r=2^256-1", "s=2^256-1", "s=n-r", "sG+tP=infinity", "swapped_r_s", "s+n", "s_plus_n_alias", "msg_extended", "msg_bitflip", "id_changed", "key_changed", "len<64", "len>64", "random_pair", "openssl_made", "digest:t=0_equation_satisfied", "digest:valid", "digest:bitflip", "near_miss_r_consistent_s", "id_changed_same_length", "alt_encoding_of_valid_signature"]);
+    ctx.require(&["valid_accepted", "bitflip_r", "bitflip_s", "r=0", "s=0", "r=n", "s=n", "s=n+1", "r=2^256-1", "s=2^256-1", "s=n-r", "sG+tP=infinity", "swapped_r_s", "s+n", "s_plus_n_alias", "msg_extended", "msg_bitflip", "id_changed", "key_changed", "len<64", "len>64", "random_pair", "openssl_made", "digest:t=0_equation_satisfied", "digest:valid", "digest:bitflip", "near_miss_r_consistent_s", "id_changed_same_length", "alt_encoding_of_valid_signature", "sample_with_empty_explicit_id"]);
     let c = r2::curve();
     // --- digest level (hook `verif_verify_digest`): clauses no message can be made to reach. (a) t = r + s = 0 mod n with
     // e chosen so that the remaining equation holds (a verifier without the t check accepts); (b) valid and tampered
@@ -330,7 +330,9 @@ pub fn run(ctx: &mut Ctx) {
             0 => (None, DEFAULT_ID.to_string()),
             1 => {
                 // every second one at an ENTL byte threshold (32 bytes = 0x0100 bits, 256, 4096, 8191)
-                let l = if i % 8 == 1 { [32usize, 33, 255, 256, 4096, 8191][(i / 8) % 6] } else { p.range(0, 40) };
+                // and every fourth one the EMPTY explicit ID (ENTL = 0, not the default ID)
+                let l = if i % 8 == 1 { [32usize, 33, 255, 256, 4096, 8191][(i / 8) % 6] } else if i % 16 == 5 { 0 } else { p.range(0, 40) };
+
                 let s = ascii_id(p, l);
                 (Some(leak(s.clone())), s)
             }
@@ -397,6 +399,9 @@ pub fn run(ctx: &mut Ctx) {
     }
     let mut p = ctx.prng(&format!("faults{}", ctx.shard));
     for (i, s) in samples.iter().enumerate() {
+        if s.id == Some("") {
+            ctx.class("sample_with_empty_explicit_id");
+        }
         fault_space(ctx, s, &mut p, &donor, false);
         if i == 0 {
             ctx.sample(json!({"valid_signature": {"origin": s.origin, "pk": hex::encode(r2::encode(&s.pk, true)), "id": s.id_str, "msg": hx(&s.msg), "sig": hex::encode(&s.sig)}, "faults": "512 bit flips, 14 component substitutions, s=n-r, swap, +n aliases, message/ID/key changes, lengths 0..=130, random pairs"}));
